@@ -76,6 +76,10 @@ func runC01(c *Ctx) {
 		}
 		c.Ob("C01-R1", "every header of the batch is verified with its seal", c.FnPos(fn), okSeal, "")
 	})
+	c.Rule("C01-R1b", "the sentinels the import loop dispatches on (known block, pruned ancestor, future block, unknown ancestor, ...) are produced unwrapped", func() {
+		c.SentinelIdentityRule("C01-R1b", nil)
+	})
+	c.Min("C01-R1b", 1)
 	c.Min("C01-R1", 10)
 
 	c.Rule("C01-R2", "every header commitment is compared with the recomputed value on every accepting path", func() {
